@@ -194,21 +194,33 @@ func (i *Injector) marshal(cfg *config.Config) ([]byte, error) {
 	}
 	restoreEmptyRelabelFields(yamlChild(yamlChild(root, "alerting"), "alert_relabel_configs"), cfg.AlertingConfig.AlertRelabelConfigs)
 
+	// the discovery sections of alertmanagers may hold secrets of any discovery mechanism,
+	// take them as the user wrote them
+	orig := yaml.MapSlice{}
+	_ = yaml.Unmarshal(i.curCfg.RawContent, &orig)
 	for idx, am := range cfg.AlertingConfig.AlertmanagerConfigs {
 		node := yamlChild(yamlChild(yamlChild(root, "alerting"), "alertmanagers"), idx)
 		restoreClientSecrets(node, am.HTTPClientConfig)
 		restoreEmptyRelabelFields(yamlChild(node, "relabel_configs"), am.RelabelConfigs)
+		restoreDiscoverySections(node, yamlChild(yamlChild(yamlChild(orig, "alerting"), "alertmanagers"), idx))
 	}
 	for idx, w := range cfg.RemoteWriteConfigs {
 		node := yamlChild(yamlChild(root, "remote_write"), idx)
 		restoreClientSecrets(node, w.HTTPClientConfig)
+		if w.URL != nil {
+			restoreURLPassword(node, "url", w.URL.URL)
+		}
 		restoreEmptyRelabelFields(yamlChild(node, "write_relabel_configs"), w.WriteRelabelConfigs)
 		if w.SigV4Config != nil {
 			restoreSecret(yamlChild(node, "sigv4"), "secret_key", string(w.SigV4Config.SecretKey))
 		}
 	}
 	for idx, r := range cfg.RemoteReadConfigs {
-		restoreClientSecrets(yamlChild(yamlChild(root, "remote_read"), idx), r.HTTPClientConfig)
+		node := yamlChild(yamlChild(root, "remote_read"), idx)
+		restoreClientSecrets(node, r.HTTPClientConfig)
+		if r.URL != nil {
+			restoreURLPassword(node, "url", r.URL.URL)
+		}
 	}
 
 	return yaml.Marshal(root)
@@ -264,7 +276,35 @@ func restoreSecret(node interface{}, key string, secret string) {
 	}
 }
 
+// restoreDiscoverySections replace every "xxx_sd_configs" section of node by the one of orig
+func restoreDiscoverySections(node interface{}, orig interface{}) {
+	m, ok := node.(yaml.MapSlice)
+	if !ok {
+		return
+	}
+	for idx := range m {
+		key, ok := m[idx].Key.(string)
+		if !ok || !strings.HasSuffix(key, "_sd_configs") {
+			continue
+		}
+		if v := yamlChild(orig, key); v != nil {
+			m[idx].Value = v
+		}
+	}
+}
+
+// restoreURLPassword put back a url whose password was marshaled as "xxxxx"
+func restoreURLPassword(node interface{}, key string, u *url.URL) {
+	if u == nil || u.User == nil {
+		return
+	}
+	if _, has := u.User.Password(); has {
+		restoreSecret(node, key, u.String())
+	}
+}
+
 func restoreClientSecrets(node interface{}, c config_util.HTTPClientConfig) {
+	restoreURLPassword(node, "proxy_url", c.ProxyURL.URL)
 	restoreSecret(node, "bearer_token", string(c.BearerToken))
 	if c.BasicAuth != nil {
 		restoreSecret(yamlChild(node, "basic_auth"), "password", string(c.BasicAuth.Password))
